@@ -709,6 +709,22 @@ func runWorldModeX(cfg *runCfg, name string, kf1 bool, live bool) error {
 			w = directedWorld(r, rep, cfg.seed*100000+19, 1)
 			w.wrongHeightProposalScript()
 			rep.count("world:directed-wrong-height-proposal-script")
+		} else if !kf1 && i == 20 {
+			w = directedWorld(r, rep, cfg.seed*100000+20, 3)
+			w.foreignHashPrepareScript()
+			rep.count("world:directed-foreign-hash-prepare-script")
+		} else if !kf1 && i == 21 {
+			w = directedWorld(r, rep, cfg.seed*100000+21, 3)
+			w.forgedProofAfterGenuineScript()
+			rep.count("world:directed-forged-proof-after-genuine-script")
+		} else if !kf1 && i == 22 {
+			w = directedWorld(r, rep, cfg.seed*100000+22, 1)
+			w.replayedVotesScript()
+			rep.count("world:directed-replayed-votes-script")
+		} else if !kf1 && i == 23 {
+			w = directedWorld(r, rep, cfg.seed*100000+23, 3)
+			w.cachedBadCommitScript()
+			rep.count("world:directed-cached-bad-commit-script")
 		} else {
 			w.run()
 		}
